@@ -8,6 +8,8 @@ PROP = dict(
                        "body_drained (MIME detected on exactly the first min(2048,len) bytes)"]),
         dict(driver="discard", binary="zwarc", quick=160, thorough=2000, shard=20,
              monitors=["discard_iff (exhaustive over status x cf-mitigated shapes)", "discard_reason", "is_challenge_page"]),
+        # about a third of the warcleg cases run the archiver with --proxy (local SOCKS5 proxy): the proxied WARC client
+        # (ClientWithProxy) is then judged by the same monitors, in particular rejected_never_stored (tags proxy:true/false)
         dict(driver="warcleg", binary="zwarc", quick=34, thorough=250, shard=12, noshrink=False,
              monitors=["accepted_stored_byte_exact_after_stop", "written_before_archived (WARC on disk at the arch.written point)",
                        "rejected_never_stored", "members_complete_and_files_finalised",
@@ -39,7 +41,7 @@ PROP = dict(
                "on every exit, SetStatus(ItemArchived) only after the feedback of that very request; lifted to all interleavings with the "
                "writer under the feedback contract). Tied to the code by three differential legs on every run: real ProcessBody on "
                "scripted readers, the real hook chain swept exhaustively over 100..599 x header shapes, and the real archiver with a real "
-               "WARC client in one process per case, read back with an independent WARC reader at the arch.written point, at archiver "
+               "WARC client (direct, or the proxied one behind a local SOCKS5 --proxy) in one process per case, read back with an independent WARC reader at the arch.written point, at archiver "
                "exit and after Stop.",
     technique="Coq model + proofs; differential testing of ProcessBody / discard chain / archive() against the model; independent WARC reader",
 )
